@@ -92,6 +92,11 @@ func genC11(seed uint64, tier string) *Scenario {
 	p := int64(time.Millisecond)
 	sc.PeriodNs = p
 	ncl := 2 + r.n(3)
+	maxOps := 4
+	if tier == "thorough" && r.chance(1, 3) {
+		ncl = 2 + r.n(5) // up to 6 clients
+		maxOps = 7
+	}
 	costs := make([]int64, ncl)
 	minCost, maxCost := int64(1<<40), int64(0)
 	for c := range costs {
@@ -171,7 +176,7 @@ func genC11(seed uint64, tier string) *Scenario {
 	estSteps := int64(0)
 	for c := 0; c < ncl; c++ {
 		cl := Client{Cost: costs[c]}
-		nops := 1 + r.n(4)
+		nops := 1 + r.n(maxOps)
 		// some clients get a Regexp of their own (it shares only the global pools with the others)
 		own := -1
 		var ownPat *pat
